@@ -578,6 +578,15 @@ pub fn check_state(p: &Props, ops: &[Op], info: &PlanInfo, obs: &Obs, last_only:
             }
         }
     }
+    if p.c12 {
+        if let Some(rr) = &obs.runs_by_run_now {
+            for n in info.nodes.iter().filter(|n| n.kind == Kind::Tl && n.parent.is_none() && !info.rejected.contains(&n.id)) {
+                if rr[n.id] != 1 {
+                    out.push(v("C12", "tl-not-run-once-by-run-now", format!("thread-local system {} ran {} times when the dispatcher was run through its RunNow implementation (which is a dispatch): {}", n.id, rr[n.id], l.short())));
+                }
+            }
+        }
+    }
     if p.c04 {
         if let Some(e) = &obs.dispatch_panic {
             out.push(v("C04", "dispatch-panicked", format!("sequential dispatch script panicked: {}", e)));
